@@ -182,3 +182,25 @@ package main
 //@   loop 1
 //@     invariant written == got && atk == old(atk) && atk != nil && atk.stopch == old(atk.stopch) && enc == old(enc) && enc != nil && pm == old(pm)
 //@     invariant (closed(atk.stopch) <==> done(&atk.stopOnce)) && (pm != nil ==> wfMetrics(pm))
+
+// ---------------------------------------------------------------------------------- C17
+// The plot command: every decoded record, exactly as decoded, is added to the plot exactly once, in
+// the order decoded; the plot is closed and written only after the loop.
+//@ func plotRun
+//@   property C17 C13
+//@   pragma frame off
+//@   returns (err)
+//@   requires [at-least-one-file] len(files) >= 1
+//@   ghost n int = 0
+//@   ghost interrupted bool = false
+//@   ghost d ref = 0
+//@   ghost closedPlot bool = false
+//@   at call decoder: ghost d = ref(result0)
+//@   at recv sigch: ghost interrupted = true
+//@   at call Decode: assert [each-record-once-in-order] result == nil ==> rec(arg1) == ditem(d, n)
+//@   at call Add: assert [adds-the-record-just-decoded] rec(arg1) == ditem(d, n) && !closedPlot ; ghost n = n + 1
+//@   at call Close: ghost closedPlot = true
+//@   before call WriteTo: assert [written-after-close] closedPlot
+//@   ensures [all-records-plotted-unless-interrupted] err == nil && !interrupted && d != 0 ==> n == dlen(d)
+//@   loop 1
+//@     invariant d != 0 && d == ref(dec) && 0 <= n && n == dpos(d) && n <= dlen(d) && !interrupted && !closedPlot && p != nil && out != nil
